@@ -289,9 +289,14 @@ def run(ck, m):
                     ck.ob("R6", st_, False, f"{q_} defines {st_.name}: {sorted(set(truthy))[0]} picks the instance form of a class/instance method only for a *truthy* instance, so a falsy image gets the class form - "
                           "an instance-level set/unset then changes the setting of the whole class (seen by every other instance and subclass)", stmt=f"{q_}: no truth value of its own while descriptors test `if instance`")
     for rel_, q_, fn_ in m.functions():
-        if not rel_.startswith("image/") or fn_.name in ("_check_style_format_spec",):
+        if not rel_.startswith(("image/", "widget/")) or fn_.name in ("_check_style_format_spec",):
             continue
         for c in body_walk(fn_):
+            # the effective method is looked up when a render is made, by the renderer: code outside the image classes that reads it holds a value
+            # that stops following later set / unset at any level (a widget that records it at construction pins it)
+            if not rel_.startswith("image/") and isinstance(c, ast.Attribute) and c.attr == "_render_method" and isinstance(c.ctx, ast.Load):
+                ck.ob("R3", enclosing_stmt(c), False, f"{q_} reads the effective render method (`{short(c, 50)}`) outside the image classes: whatever it does with the value (store it, pass it on as an override) "
+                      "no longer follows a later set_render_method() / unset on the instance, its class or an ancestor", stmt=f"{q_}: the effective render method is read by the renderers only")
             setd = isinstance(c, ast.Call) and isinstance(c.func, ast.Attribute) and c.func.attr in ("setdefault", "update") and c.args and isinstance(c.args[0], ast.Constant) and c.args[0].value == "method"
             sub = isinstance(c, ast.Subscript) and isinstance(c.ctx, ast.Store) and isinstance(c.slice, ast.Constant) and c.slice.value == "method"
             kwm = isinstance(c, ast.Call) and c.func is not None and any(k.arg == "method" and not (isinstance(k.value, ast.Name) and k.value.id == "method") for k in c.keywords) and "_render_image" in norm(c.func)
